@@ -26,6 +26,7 @@ var repoDir = func() string {
 	}
 	return "/repo"
 }()
+
 const modPath = "github.com/pion/rtp"
 
 type KnownFinding struct {
